@@ -40,9 +40,10 @@ structure Mem where
   restoreService : Exp
   restoreGateway : Exp
   removeCanaryService : Exp
+  updateRoute : Exp
   deriving Repr, DecidableEq, Inhabited
 
-def Mem.empty : Mem := ⟨.none, .none, .none, .none⟩
+def Mem.empty : Mem := ⟨.none, .none, .none, .none, .none⟩
 
 structure TCtx where
   hasRef : Bool
@@ -52,6 +53,8 @@ structure TCtx where
   stableRev : String
   canaryRev : String
   lastUpdate : Age
+  /-- `RevisionLabelKey` is known (it is empty when the controller could not read the workload) -/
+  hasRevKey : Bool := true
   deriving Repr, DecidableEq, Inhabited
 
 /-- outcome of a Manager call -/
@@ -94,7 +97,7 @@ def selOf (r : String) : Option String := if r = "" then none else some r
 /-- `Manager.PatchStableService`: `done` here means *retry* -/
 def patchStableService (c : TCtx) (n : Net) (m : Mem) : TOut :=
   if ¬ c.hasRef then ⟨false, false, n, m, false, []⟩
-  else if c.disableGen then ⟨true, false, n, m, false, []⟩
+  else if c.disableGen then ⟨false, false, n, m, false, []⟩
   else if ¬ n.stableExists then ⟨false, true, n, m, false, []⟩
   else
     let modified := decide (n.stableSel.getD "" ≠ c.stableRev)
@@ -107,7 +110,8 @@ def restoreStableService (c : TCtx) (n : Net) (m : Mem) : TOut :=
   if ¬ c.hasRef then ⟨false, false, n, m, false, []⟩
   else if ¬ n.stableExists then ⟨false, false, n, m, false, []⟩
   else
-    let modified := decide (n.stableSel.getD "" ≠ "")
+    -- with an empty revision-label key the selector lookup finds nothing: the Service is left as it is
+    let modified := c.hasRevKey && decide (n.stableSel.getD "" ≠ "")
     let n' := if modified then { n with stableSel := none } else n
     let (e, retry) := runGrace c.grace m.restoreService modified
     ⟨retry, false, n', { m with restoreService := e }, modified, if modified then ["unpinStable"] else []⟩
@@ -130,6 +134,18 @@ def removeCanaryService (c : TCtx) (n : Net) (m : Mem) : TOut :=
     let (e, retry) := runGrace c.grace m.removeCanaryService modified
     ⟨retry, false, { n with canarySvc := none }, { m with removeCanaryService := e }, false,
       if modified then ["deleteCanarySvc"] else []⟩
+
+/-- `Manager.RouteAllTrafficToNewVersion` (retry semantics): canary weight 100 -/
+def routeAllToNew (c : TCtx) (n : Net) (m : Mem) : TOut :=
+  if ¬ c.hasRef then ⟨false, false, n, m, false, []⟩
+  else
+    let r := ensureRoutes n 100
+    if r.2.2 then ⟨true, true, n, m, true, []⟩
+    else
+      let modified := !r.2.1
+      let (e, retry) := runGrace c.grace m.updateRoute modified
+      ⟨retry, false, { n with canaryIng := r.1 }, { m with updateRoute := e }, modified,
+        if r.1 = n.canaryIng then [] else if n.canaryIng.isNone then ["createCanaryIngress"] else ["patchCanaryIngress"]⟩
 
 /-- `Manager.FinalisingTrafficRouting` (done semantics): stable Service, then gateway, then canary Service -/
 def finalisingTrafficRouting (c : TCtx) (n : Net) (m : Mem) : TOut :=
